@@ -58,7 +58,7 @@ class Concretizer:
     def entry(self, typ, name, depth=0):
         """value on entry of the symbolic input `name` of declared type `typ` under the model"""
         ov = self.ex.overrides.get(name)
-        if ov is not None:
+        if ov is not None and not (ov == ('numstr',) and typ != ('str',)):
             typ = ov
         k = typ[0]
         if k == 'int':
